@@ -95,6 +95,7 @@ Proof.
   all: try (eapply proj1, tmrm_site_run; eassumption).
   all: try (eapply proj2, tmrm_site_run; eassumption).
   all: try (rewrite Hpc; split; [done|]; (done || eauto)).
+  all: try (destruct Hpc as [Hpc|[Hpc _]]; rewrite Hpc; split; done).
   - (* cancel *)
     intros tid0 t0 H0. destruct (decide (tid0 = tid)) as [->|Hne].
     + simplify_eq. rewrite lookup_insert. eexists; split; [done|]. simpl. rewrite Hn, Hf. naive_solver.
@@ -127,7 +128,12 @@ Ltac site_inv :=
   | H : ds_move _ _ _ _ _ |- _ => destruct H
   end.
 (** side conditions about the pc of the running thread *)
-Ltac pcs := try done; try site_inv; subst; try (destruct (sc_noclear _)); try (destruct (lt_pos _)); try congruence;
+Ltac ds_next_cases :=
+  repeat match goal with
+         | |- context [ds_next ?l] => destruct l; simpl
+         | H : context [ds_next ?l] |- _ => destruct l; simpl in H
+         end.
+Ltac pcs := try done; try site_inv; subst; try (destruct (sc_noclear _)); try (destruct (lt_pos _)); ds_next_cases; try congruence;
             try match goal with H : _ ∨ _ |- _ => destruct H; congruence end.
 
 Section fields.
